@@ -79,12 +79,12 @@ prop("C13", ["prims.go", "c13.go"],
      [run("check", "harnessC13", ["match", "mismatch", "empty-checksum", "nil-hash", "open-fails", "checked-twice"], native="check",
           quick={"witness": 16, "params": {"bytes": 4}, "bound": "digest <= 4 bytes and checksum <= 5 bytes of BitVec 8, symbolic lengths; Hash nil or not; file open failing or not; then a second check on the same SecureConfig with the file's digest arbitrary again (unchanged or replaced); the hash model remembers what was fed since the last Reset"},
           thorough={"witness": 32, "params": {"bytes": 8}, "bound": "digest <= 8 bytes and checksum <= 9 bytes of BitVec 8, symbolic lengths; Hash nil or not; file open failing or not; second check as in quick"}),
-      run("start-order", "harnessC13start", ["launched", "refused", "runnerfunc-refused", "path-through-symlink", "file-not-found"], files=WORLD,
-          quick={"bound": "whole Client.Start composed with a real plugin, launch through exec.Cmd and through a RunnerFunc, SecureConfig with digest <= 2 and checksum <= 3 symbolic bytes: the process is launched iff the checksum matches the digest of the file the kernel executes; command path plain, not openable where Check looks for it, or through a symbolic link followed by '..' with a decoy (digest = the checksum) at the lexically cleaned path"})],
+      run("start-order", "harnessC13start", ["launched", "refused", "runnerfunc-refused", "path-through-symlink", "file-not-found", "working-directory-set"], files=WORLD,
+          quick={"bound": "whole Client.Start composed with a real plugin, launch through exec.Cmd and through a RunnerFunc, SecureConfig with digest <= 2 and checksum <= 3 symbolic bytes: the process is launched iff the checksum matches the digest of the file the kernel executes; command path plain, not openable where Check looks for it, through a symbolic link followed by '..' with a decoy (digest = the checksum) at the lexically cleaned path, or absolute with cmd.Dir set and a decoy at Dir+Path"})],
      ["hash.Hash is a harness implementation returning an arbitrary digest (the hash function itself is outside the claim)", "os.Open/io.Copy/File.Close modelled: open may fail"],
      ["os.Open", "io.Copy", "hash.Hash"], "digests longer than the bound; the hash function",
      text="Bounded symbolic model checking of the real SecureConfig.Check (including the real crypto/subtle.ConstantTimeCompare SSA) over every digest/checksum byte string within the length bound: the solver shows Check returns (true,nil) iff checksum == digest, and the documented sentinel errors otherwise. Right level because the property is a universal statement over byte strings whose rare points (prefix, extension, one flipped bit) are satisfying assignments, not samples.",
-     note="Bound: digest <= 4 / checksum <= 5 bytes quick, two checks per SecureConfig; command path plain / not openable / through a symbolic link. Trusted: the hash function (a harness hash.Hash returns an arbitrary digest and remembers what was fed since the last Reset), os.Open/io.Copy contract models with file identity by exact path. " + ENGINE)
+     note="Bound: digest <= 4 / checksum <= 5 bytes quick, two checks per SecureConfig; command path plain / not openable / through a symbolic link / with a working directory. Trusted: the hash function (a harness hash.Hash returns an arbitrary digest and remembers what was fed since the last Reset), os.Open/io.Copy contract models with file identity by exact path. " + ENGINE)
 
 # ------------------------------------------------------------------------------------------------ C10
 READLINE = "bufio.Reader.ReadLine is an exact chunking function of (line length L, terminator in {LF, CRLF, none at EOF}, buffer size B >= 16): full-buffer prefix chunks with isPrefix, final chunk stripped of its terminator, then (nil,false,io.EOF)"
@@ -259,16 +259,17 @@ prop("C09", ["prims.go", "c09a.go"],
 
 # ------------------------------------------------------------------------------------------------ C06 / C07 / C08 / C11 / C20
 NETRPC = "net/rpc model: Call(\"Svc.Method\") runs the real registered receiver method in a goroutine of the peer; fails when the connection is closed"
+DEADLINES = "yamux stream deadlines: SetDeadline/SetReadDeadline/SetWriteDeadline recorded per stream on the symbolic clock (time.Now, Time.Add/Sub/IsZero/Before/After on it); a read, write or call after a passed deadline fails (every write is taken for one that exhausts the send window); a blocked read is not woken by its deadline"
 prop("C06", ["prims.go", "c06.go"],
      [run("routing", "harnessC06", ["dispensed", "routed"], dpor=True,
-          quick={"max_reversals": 2, "bound": "two Dispense calls + two symbolic distinct IDs accepted on the host and dialled from the plugin within a symbolic gap < 5 s in either order; all schedules with <= 2 reversals"},
+          quick={"max_reversals": 2, "bound": "two Dispense calls, a further call on the first dispensed client at a symbolic instant 6-9 s later (any deadline Dial left on the stream has passed), + two symbolic distinct IDs accepted on the host and dialled from the plugin within a symbolic gap < 5 s in either order, data written on the dialled end 6 s after that; all schedules with <= 2 reversals"},
           thorough={"max_reversals": 3, "max_wall_s": 3000, "bound": "as quick with <= 3 reversals (about 262 000 schedules, 15 M solver queries, 12-15 min on 16 cores when measured)"}),
       run("nextid", "harnessC20nextid", ["ids-distinct"], dpor=True, files=["prims.go", "c20.go"], quick={"max_reversals": 2, "params": {"as": 6}, "bound": "two goroutines each taking two IDs from both broker kinds, counter value symbolic (wrap-around included); all schedules with <= 2 reversals"}),
       run("mux-history", "harnessC09a", ["accept-matched", "dial-inside-window", "probe-done"], files=["prims.go", "c09a.go"],
           quick={"bound": "C09's MuxBroker history run read for C06 (canonical schedule): with another dial pending on a different ID, an Accept(a) and a dial for a that arrives within four seconds of it are matched"}),
       run("after-timeout", "harnessC06afterTimeout", ["lonely-on-host", "lonely-on-plugin", "timed-out", "abandoned-dial", "routed"], dpor=True,
           quick={"max_reversals": 1, "bound": "history prefix: one Dispense, then an Accept(id0) nobody dials on the host or the plugin broker (times out), optionally a stream opened by either end and dropped before its ID was written; afterwards a second Dispense and one symbolic ID accepted/dialled in either direction, either order, symbolic gap < 5 s; symbolic clock, all schedules with <= 1 reversal"})],
-     [YAMUX, NETRPC], ["yamux", "net/rpc", "encoding/binary"],
+     [YAMUX, NETRPC, DEADLINES], ["yamux", "net/rpc", "encoding/binary", "time.Now"],
      "byte transport on a stream (yamux contract); 3 IDs; more than 1 reversal in quick",
      text="Bounded symbolic model checking of the real MuxBroker (Accept/Dial/Run/NextId/AcceptAndServe), dispenseServer.Dispense, RPCClient.Dispense and serve over paired-session yamux and net/rpc models, all schedules up to the reversal bound: Accept(n) returns the far end of the stream Dial(n) returned, and each Dispense reaches the server object created for that dispense.",
      note="Bound: 2 IDs, 2 dispenses, DPOR with 2 reversals (a check-then-act atomicity bug in getStream needs two); histories with a timed-out accept, an abandoned dial, another dial pending. " + ENGINE)
